@@ -62,7 +62,7 @@ EXPR_SHAPES = [
     "a0(**a1)", "a0(a1, k=a2, **a3)", "a0(a1, *a2, k=a3, **a4)", "a0(*a1, k=a2)",
     "f'{a0}'", "f'x{a0}y{a1}'", "f'{a0!r}'", "f'{a0!s}'", "f'{a0!a}'", "f'{a0:>5}'", "f'{a0:{a1}}'", "f'{a0!r:{a1}}'",
     "(x := a0)",
-    "a0(k=a1, **{'k': a2})", "a0(**[a1])", "a0(a1, **{'j': a2})", "{**[a0]}", "{a0: a1, **[a2]}",
+    "a0(k=a1, **{'k': a2})", "a0(**{'k': a1}, k=a2)", "a0(**[a1])", "a0(a1, **{'j': a2})", "{**[a0]}", "{a0: a1, **[a2]}",
     "[a0 for x in i1]", "[a0 for x in i1 if a2]", "[a0 for x in i1 if a2 if a3]",
     "[a0 for x in i1 for y in i2]", "[a0 for x in i1 if a2 for y in i3 if a4]",
     "{a0 for x in i1}", "{a0 for x in i1 if a2 if a3}", "{a0 for x in i1 for y in i2}",
@@ -76,7 +76,7 @@ STMT_SHAPES = [
     "a0[a1] = a2", "a0.attr = a1", "a0[a1], x = (a2, a3)", "a0[a1:a2] = a3",
     "x = a0[a1] = a2",
     "x, *a0[a1] = (a2, a3, a4)", "*a0.attr, x = (a1, a2)",
-    "x: a0 = a1", "x: a0", "a2[a3]: a0 = a1", "a2.attr: a0 = a1",
+    "x: a0 = a1", "x: a0", "a2[a3]: a0 = a1", "a2.attr: a0 = a1", "(x): a0 = a1", "(x): a0",
     "x += a0", "x -= a0", "x *= a0", "a0[a1] += a2", "a0.attr += a1", "a0[a1:a2] += a3",
     "del x", "del a0[a1]", "del a0[a1], a2[a3]", "del a0.attr", "del x, y", "del a0[a1:a2]", "del (x, y)",
     "a0",
@@ -210,6 +210,27 @@ def run(ctx):
                     ctx.fail("R01.8", unit, f"except {'/'.join(sorted(caught)) or 'all'} -> raise {raised or ast.unparse(r.exc)[:40]}",
                              f"`{ast.unparse(h).splitlines()[0]}` covers `{drives}` (script code runs there) and raises {raised or 'another exception'} instead: "
                              "the exception the script raised is replaced (Python propagates it unchanged)", rel="eval.py", node=h)
+
+    # R01.10 the name pre-pass accepts the target forms the assignment handler accepts ------------------------------------------------------
+    ctx.rule("R01.10", "target names: the pre-pass that collects the names a target binds (used for comprehension variables and function locals) handles every target form "
+                       "recurse_assign handles - a starred element may be any target (`x, *d[0]`), not only a name", floor=5)
+    from ..flow import FlowPolicy as _FP, exits as _exits, run_flow as _run_flow
+    from ..schematic import to_nodev
+    tn = "eval.py::AstEval.get_target_names"
+    for src, want in (("a, *b = v", {"a", "b"}), ("a, *d[0] = v", {"a"}), ("[a, *o.attr] = v", {"a", "o.attr"}), ("(a, (b, *c)), e = v", {"a", "b", "c", "e"}), ("d[0] = v", set())):
+        tgt = to_nodev(ast.parse(src).body[0].targets[0])
+        polt = _FP(program, may_raise_all=False, cancel=False, inline={"self.get_target_names", "AstEval.get_target_names"},
+                   summaries={"self.ast_attribute_collapse": lambda i, n, a, k, c, o: [(c, Const("o.attr"))]})
+        polt.loop_unroll = 5
+        polt.max_depth = 6
+        outt = _run_flow(program, tn, polt, args={"self": ObjV("self", "AstEval"), "lhs": tgt})
+        got = set()
+        for k, c, d in _exits(outt):
+            r = c.env.get("$ret")
+            got.add(frozenset(x.v for x in r.items) if k == "return" and isinstance(r, ListV) and all(isinstance(x, Const) for x in r.items) else d)
+        ctx.check(got == {frozenset(want)}, "R01.10", tn, f"names bound by `{src.rsplit(' = ', 1)[0]}`",
+                  msg=f"get_target_names for the target `{src.rsplit(' = ', 1)[0]}`: {sorted(map(repr, got))}, specified {sorted(want)}: a comprehension or function using this target fails "
+                  "before it starts (recurse_assign itself accepts the target)", key=f"target names {src}", node=program.func(tn), rel="eval.py")
 
     # R01.9 what a comprehension leaves of the enclosing scope's variable of the same name ---------------------------------------------
     ctx.rule("R01.9", "comprehension scope: after save -> (the loop assigns its variable) -> restore, a name bound before the comprehension has exactly its value back "
